@@ -1666,7 +1666,7 @@ def main(pid, coq_targets, tier=None, seed=None, replay=None, tie_targets=None, 
         "harness_problems": len(harness_bad),
         "mean_wall_s": round(sum(r.get("wall", 0) for r in results) / max(1, len(results)), 2),
         "tie": ("trace correspondence (real runtime traces replayed through RT.run by vm_compute)"
-                + ("" if tie_T is None else (" + translator tie for the guard kernel" if tie_T == "ok"
+                + ("" if tie_T is None else (" + translator tie (" + {"C12": "the guard kernel of guard.py", "C03": "the payload registry of meta_runner.py"}.get(pid, "-") + ")" if tie_T == "ok"
                                              else "; translator tie lost: " + tie_T[:200]))),
     })
     chk.write_evidence(TRUSTED_BASE, ASSUMPTIONS)
